@@ -240,6 +240,8 @@ func init() {
 				seen[src] = true
 				if len(src) <= maxAll {
 					c.Do(subC07, &c07Case{Src: src, Mode: "all"})
+				} else if len(src) <= 36 && c.Thorough() {
+					c.Do(subC07, &c07Case{Src: src, Mode: "cuts:4"})
 				} else if len(src) <= 70 {
 					c.Do(subC07, &c07Case{Src: src, Mode: fmt.Sprintf("cuts:%d", cuts)})
 				} else if len(src) <= 400 {
